@@ -28,20 +28,40 @@ Proof.
   destruct cb as [l|l i re]; simpl in H; eexists; (split; [exact H|]); simpl; rewrite Nat.eqb_refl; left; reflexivity.
 Qed.
 
+Lemma late_labels_filter sid q : late_labels sid (qfilter sid q) = late_labels sid q.
+Proof.
+  unfold late_labels, qfilter. induction q as [|x q IH]; simpl; [reflexivity|].
+  destruct (Nat.eqb (q_sid x) sid) eqn:E; simpl; rewrite IH; [reflexivity|].
+  destruct x as [s st|s c rc]; simpl in *; [reflexivity|]. rewrite E. reflexivity.
+Qed.
+
+Lemma late_labels_q_of sid c : late_labels sid (q_of sid c) = map (fun x => cb_label (fst x)) (c_late c).
+Proof.
+  unfold q_of, late_labels. rewrite flat_map_app.
+  assert (flat_map (fun x : qitem => match x with QSet _ _ => [] | QCall s c0 _ => if Nat.eqb s sid then [cb_label c0] else [] end)
+            match c_ph c with PhQueued st => [QSet sid st] | _ => [] end = []) as ->
+    by (destruct (c_ph c); reflexivity).
+  simpl. induction (c_late c) as [|x l IH]; simpl; [reflexivity|]. rewrite Nat.eqb_refl, IH. reflexivity.
+Qed.
+
 Theorem at_most_once es sid p r : wf es = true -> after_spawn sid es = Some (p, r) ->
   exists sb, nth_error (w_subs (run es)) sid = Some sb /\ s_pid sb = p /\
-             child_report sid p r (calls_of sid (w_log (run es))) sb.
+             child_report sid p r (calls_of sid (w_log (run es))) (w_queue (run es)) sb.
 Proof.
-  intros W A. destruct (world_child es sid p r W A) as [[[Hs Hk Hw Hc Hi] Hq] [I1 I2 I3 I4]].
+  intros W A. destruct (world_child es sid p r W A) as [[[Hs Hk Hw Hc Hi] Hq] [I1 I2 I3 [dr I5] I4]].
   set (c := fold_left (cstep sid) r (cinit p)) in *.
+  assert (LL : late_labels sid (w_queue (run es)) = map (fun x => cb_label (fst x)) (c_late c)).
+  { rewrite <- late_labels_filter, Hq. apply late_labels_q_of. }
   exists (c_sub c). split; [exact Hs|]. split; [exact I1|]. rewrite Hc.
   unfold body in I4. destruct (c_ph c) as [|st|st|st] eqn:P; simpl in I2.
-  - destruct I4 as [A1 [A2 [A3 _]]]. apply CR_nothing; assumption.
-  - destruct I4 as [A1 [A2 [A3 _]]]. apply CR_nothing; assumption.
-  - destruct I4 as [A1 [A2 [A3 _]]]. apply CR_nothing; assumption.
+  - destruct I4 as [A1 [A2 [A3 [A4 _]]]]. apply CR_nothing; try assumption. rewrite LL, A3. reflexivity.
+  - destruct I4 as [A1 [A2 [A3 [A4 _]]]]. apply CR_nothing; try assumption. rewrite LL, A3. reflexivity.
+  - destruct I4 as [A1 [A2 [A3 [A4 _]]]]. apply CR_nothing; try assumption. rewrite LL, A3. reflexivity.
   - destruct (decode st) as [rc|] eqn:D.
-    + destruct I4 as [A1 [cb [A2 [A3 [A4 A5]]]]]. apply (CR_called sid p r _ _ st rc cb); auto.
-    + destruct I4 as [A1 [A2 A3]]. apply (CR_assert sid p r _ _ st); auto.
+    + destruct I4 as [A1 [[cb0 [rest [B1 [B2 B3]]]] [C [Dl E]]]].
+      apply (CR_called sid p r _ _ _ st rc cb0 rest); auto.
+      exists dr. rewrite I5, LL. unfold active. rewrite A1. reflexivity.
+    + destruct I4 as [A1 [A2 [A3 A4]]]. apply (CR_assert sid p r _ _ _ st); auto. rewrite LL, A3. reflexivity.
 Qed.
 
 (* nothing is reported while the child is alive *)
@@ -51,22 +71,35 @@ Proof.
   intros W A F. destruct (at_most_once es sid p r W A) as [sb [_ [_ [H| |]]]]; [exact H|congruence|congruence].
 Qed.
 
+Lemma NoDup_mid {A} (a b c : list A) : NoDup (a ++ b ++ c) -> NoDup b.
+Proof.
+  intros H. induction a as [|x a IH]; simpl in H.
+  - induction b as [|y b IHb]; [constructor|]. simpl in H. inversion H as [|? ? H1 H2]; subst.
+    constructor; [intros K; apply H1; apply in_or_app; left; exact K|exact (IHb H2)].
+  - inversion H; subst. apply IH. assumption.
+Qed.
+
+(* no registered callback runs twice: if the labels registered on the object are distinct, so are the labels in its log *)
+Theorem each_registration_at_most_once es sid p r : wf es = true -> after_spawn sid es = Some (p, r) ->
+  NoDup (reg_labels sid r) -> NoDup (call_labels (calls_of sid (w_log (run es)))).
+Proof.
+  intros W A N. destruct (at_most_once es sid p r W A) as [sb [_ [_ CR]]].
+  destruct CR as [E _ _ _|st rc cb rest _ _ _ _ _ _ _ _ [dr E]|st _ _ E _ _ _].
+  - rewrite E. constructor.
+  - rewrite E in N. exact (NoDup_mid _ _ _ N).
+  - rewrite E. simpl. constructor.
+Qed.
+
 Lemma reported_world es sid p r st : wf es = true -> after_spawn sid es = Some (p, r) ->
   reported st (fold_left (cstep sid) r (cinit p)) ->
-  first_exit p r = Some st /\
-  exists sb, nth_error (w_subs (run es)) sid = Some sb /\
-    match decode st with
-    | Some rc => exists cb, calls_of sid (w_log (run es)) = [LCall sid (cb_label cb) rc] /\ s_rc sb = Some rc /\
-                            reg_ok sid r cb /\ cb_done cb rc (s_futs sb) /\ others_pending cb (s_futs sb)
-    | None => calls_of sid (w_log (run es)) = [LAssert sid] /\ s_rc sb = None
-    end.
+  first_exit p r = Some st /\ exactly_once es sid r st.
 Proof.
-  intros W A Rp. destruct (world_child es sid p r W A) as [[[Hs Hk Hw Hc Hi] Hq] [I1 I2 I3 I4]].
+  intros W A Rp. destruct (world_child es sid p r W A) as [[[Hs Hk Hw Hc Hi] Hq] [I1 I2 I3 I5 I4]].
   set (c := fold_left (cstep sid) r (cinit p)) in *. unfold reported in Rp.
   unfold body in I4. rewrite Rp in I2, I4. simpl in I2. split; [symmetry; exact I2|].
   exists (c_sub c). split; [exact Hs|]. rewrite Hc.
   destruct (decode st) as [rc|].
-  - destruct I4 as [A1 [cb [A2 [A3 [A4 A5]]]]]. exists cb. auto.
+  - destruct I4 as [A1 [[cb [rest [A2 [A3 A4]]]] _]]. exists cb, rest. auto.
   - destruct I4 as [A1 [A2 A3]]. auto.
 Qed.
 
@@ -104,16 +137,16 @@ Theorem future_rule es sid p r : wf es = true -> after_spawn sid es = Some (p, r
     f = FPending \/
     exists st rc re, first_exit p r = Some st /\ decode st = Some rc /\ In (EWait sid l re) r /\
                      f = (if negb (rc =? 0) && re then FError rc else FResult rc) /\
-                     calls_of sid (w_log (run es)) = [LCall sid l rc].
+                     In (LCall sid l rc) (calls_of sid (w_log (run es))).
 Proof.
   intros W A. destruct (at_most_once es sid p r W A) as [sb [Hs [_ CR]]].
   exists sb. split; [exact Hs|]. intros j l f Hj.
   assert (AP : all_pending (s_futs sb) -> f = FPending).
   { intros AP. apply nth_error_In in Hj. exact (proj1 (Forall_forall _ _) AP _ Hj). }
-  destruct CR as [_ _ H|st rc cb F D Lg Rc Rk Dn Ot|st _ _ _ _ H]; [left; exact (AP H)| |left; exact (AP H)].
+  destruct CR as [_ _ H _|st rc cb rest F D Lg Ac Rc Rk Dn Fo _|st _ _ _ _ H _]; [left; exact (AP H)| |left; exact (AP H)].
   destruct f as [|x|x]; [left; reflexivity| |];
-    (right; destruct (Ot j _ Hj ltac:(discriminate)) as [l' [re ->]]; simpl in *;
-     rewrite Hj in Dn; injection Dn as <- Dn; exists st, rc, re; repeat split; auto).
+    (right; destruct (Fo j l _ Hj ltac:(discriminate)) as [re [X [Y Z]]];
+     exists st, rc, re; repeat split; auto).
 Qed.
 
 (* with a single registration, "the" callback is that one *)
@@ -129,29 +162,132 @@ Proof.
   intros K. apply H1. apply in_or_app. left; exact K.
 Qed.
 
-(* re-registering after the exit was reported never fires: whatever happens later (further registrations,
-   SIGCHLDs, loop turns), the log of this object stays as it is *)
-Theorem late_registration_never_fires es sid p r st extra : wf (es ++ extra) = true ->
-  after_spawn sid es = Some (p, r) -> reported st (fold_left (cstep sid) r (cinit p)) ->
-  calls_of sid (w_log (run (es ++ extra))) = calls_of sid (w_log (run es)).
+(* ---------- a registration made after the exit was reported fires at the next loop turn ---------- *)
+Definition pend (cb : cbk) (rc : Z) (c : cstate) : Prop := In (cb, rc) (c_late c).
+Definition done (sid : nat) (cb : cbk) (rc : Z) (c : cstate) : Prop :=
+  In (LCall sid (cb_label cb) rc) (c_calls c) /\ cb_done cb rc (s_futs (c_sub c)).
+
+Lemma rb_of_inv sid p es c cb rc : Inv sid p es c -> pend cb rc c \/ done sid cb rc c ->
+  exists st, c_ph c = PhReported st /\ decode st = Some rc /\ RB sid es rc (c_sub c) (c_calls c) (c_late c).
 Proof.
-  intros W A Rp.
-  assert (W0 : wf es = true).
-  { unfold wf in *. apply znodup_nodup in W. apply znodup_nodup. unfold spawn_pids in W. rewrite flat_map_app in W.
-    exact (NoDup_app_l _ _ W). }
-  assert (A' : after_spawn sid (es ++ extra) = Some (p, r ++ extra)).
-  { clear - A. revert sid A. induction es as [|a es IH]; intros sid A; simpl in *; [discriminate|].
-    destruct a; try (apply IH; exact A). destruct sid; [injection A as -> ->; reflexivity|apply IH; exact A]. }
-  destruct (world_child es sid p r W0 A) as [[[_ _ _ Hc _] _] _].
-  destruct (world_child (es ++ extra) sid p (r ++ extra) W A') as [[[_ _ _ Hc' _] _] _].
-  rewrite Hc, Hc', fold_left_app.
-  generalize dependent (fold_left (cstep sid) r (cinit p)). clear.
-  intros c Rp _. revert c Rp. induction extra as [|e extra IH]; intros c Rp; simpl; [reflexivity|].
-  rewrite IH by (apply reported_step; exact Rp).
-  unfold reported in Rp. destruct c as [s ph inw calls]. simpl in Rp. subst ph.
-  destruct e as [q|q st0| |s0 l|s0 l re|]; simpl; try reflexivity.
-  - destruct (q =? s_pid s); reflexivity.
-  - destruct inw; reflexivity.
-  - destruct (Nat.eqb s0 sid); reflexivity.
-  - destruct (Nat.eqb s0 sid); reflexivity.
+  intros [H1 H2 H3 H5 H4] PD. unfold body in H4.
+  assert (NE : c_late c <> [] \/ exists l, In (LCall sid l rc) (c_calls c)).
+  { destruct PD as [P|[D _]]; [left; intros E; unfold pend in P; rewrite E in P; destruct P|right; eauto]. }
+  destruct (c_ph c) as [|st|st|st].
+  1-3: (destruct H4 as [_ [B [C _]]]; destruct NE as [NE|[l NE]]; [contradiction|rewrite B in NE; destruct NE]).
+  exists st. destruct (decode st) as [rc0|].
+  - assert (rc0 = rc).
+    { destruct H4 as [_ [_ [C [[D _] _]]]]. destruct PD as [P|[D' _]].
+      - destruct (D _ _ P) as [X _]. symmetry; exact X.
+      - destruct (proj1 (Forall_forall _ _) C _ D') as [l X]. congruence. }
+    subst rc0. auto.
+  - destruct H4 as [_ [B [C _]]]. destruct NE as [NE|[l NE]]; [contradiction|].
+    rewrite B in NE. destruct NE as [NE|[]]. discriminate.
+Qed.
+
+Lemma cb_done_app cb rc futs extra : cb_done cb rc futs -> cb_done cb rc (futs ++ extra).
+Proof.
+  unfold cb_done. destruct cb as [l|l i re]; [auto|]. intros H.
+  rewrite nth_error_app1 by exact (nth_error_lt _ _ _ H). exact H.
+Qed.
+
+Lemma late_step sid p es c cb rc e : Inv sid p es c -> pend cb rc c \/ done sid cb rc c ->
+  (pend cb rc (cstep sid c e) \/ done sid cb rc (cstep sid c e)) /\
+  (done sid cb rc c -> done sid cb rc (cstep sid c e)) /\
+  (e = ELoop -> done sid cb rc (cstep sid c e)).
+Proof.
+  intros Hc PD. destruct (rb_of_inv sid p es c cb rc Hc PD) as [st [P [Dc Rb]]].
+  pose proof Rb as [A _].
+  assert (Reg : forall prep cbof extra, prep (c_sub c) = mkSub (s_pid (c_sub c)) (s_cb (c_sub c)) (s_rc (c_sub c)) (s_futs (c_sub c) ++ extra) ->
+            (pend cb rc (creg prep cbof c) \/ done sid cb rc (creg prep cbof c)) /\
+            (done sid cb rc c -> done sid cb rc (creg prep cbof c))).
+  { intros prep cbof extra E. unfold creg. rewrite A. unfold pend, done. cbn [c_sub c_calls c_late]. rewrite E. cbn [s_futs].
+    split.
+    - destruct PD as [X|[X Y]]; [left; apply in_or_app; left; exact X|right; split; [exact X|apply cb_done_app; exact Y]].
+    - intros [X Y]. split; [exact X|apply cb_done_app; exact Y]. }
+  destruct e as [q|q st0| |s0 l|s0 l re|]; cbn [cstep].
+  - split; [exact PD|split; [auto|discriminate]].
+  - assert (E : (if q =? s_pid (c_sub c) then match c_ph c with PhRun => mkC (c_sub c) (PhZombie st0) (c_inw c) (c_calls c) (c_late c) | _ => c end else c) = c).
+    { destruct (q =? s_pid (c_sub c)); [|reflexivity]. rewrite P. reflexivity. }
+    rewrite E. split; [exact PD|split; [auto|discriminate]].
+  - assert (E : (if c_inw c then ctry c else c) = c).
+    { destruct (c_inw c); [|reflexivity]. unfold ctry. rewrite P. reflexivity. }
+    rewrite E. split; [exact PD|split; [auto|discriminate]].
+  - destruct (Nat.eqb s0 sid); [|split; [exact PD|split; [auto|discriminate]]].
+    destruct (Reg prep_plain (cb_plain l) []) as [X Y].
+    { unfold prep_plain. rewrite app_nil_r. destruct (c_sub c); reflexivity. }
+    split; [exact X|split; [exact Y|discriminate]].
+  - destruct (Nat.eqb s0 sid); [|split; [exact PD|split; [auto|discriminate]]].
+    destruct (Reg (prep_fut l) (cb_fut l re) [(l, FPending)] eq_refl) as [X Y].
+    split; [exact X|split; [exact Y|discriminate]].
+  - unfold cloop. rewrite P. unfold crun_late.
+    pose proof (RB_run sid es rc (c_late c) (c_sub c) (c_calls c) Rb) as [_ [_ [_ [_ [Y5 [Y6 Y7]]]]]].
+    destruct (run_lates sid (c_sub c) (c_calls c) (c_late c)) as [s' calls']. cbn [fst snd] in *.
+    assert (D : done sid cb rc (mkC s' (c_ph c) (c_inw c) calls' [])).
+    { unfold done. cbn [c_sub c_calls]. destruct PD as [X|[X Y]].
+      - exact (Y7 _ _ X).
+      - split; [apply Y5; exact X|]. unfold cb_done in *. destruct cb as [l|l i re]; [exact I|].
+        apply Y6; [exact Y|]. simpl. apply resolve_not_pending. }
+    split; [right; exact D|split; intros _; exact D].
+Qed.
+
+Lemma late_fold sid p cb rc r : forall es c, Inv sid p es c -> pend cb rc c \/ done sid cb rc c ->
+  (pend cb rc (fold_left (cstep sid) r c) \/ done sid cb rc (fold_left (cstep sid) r c)) /\
+  (done sid cb rc c -> done sid cb rc (fold_left (cstep sid) r c)) /\
+  (In ELoop r -> done sid cb rc (fold_left (cstep sid) r c)).
+Proof.
+  induction r as [|e r IH]; intros es c Hc PD; cbn [fold_left].
+  - split; [exact PD|split; [auto|intros []]].
+  - destruct (late_step sid p es c cb rc e Hc PD) as [X [Y Z]].
+    destruct (IH (es ++ [e]) (cstep sid c e) (Inv_step sid p es c e Hc) X) as [X' [Y' Z']].
+    split; [exact X'|]. split; [intros D; apply Y', Y, D|].
+    intros [E|H]; [apply Y', Z; exact E|exact (Z' H)].
+Qed.
+
+Lemma after_spawn_app es extra : forall sid p r, after_spawn sid es = Some (p, r) ->
+  after_spawn sid (es ++ extra) = Some (p, r ++ extra).
+Proof.
+  induction es as [|a es IH]; intros sid p r A; simpl in *; [discriminate|].
+  destruct a; try (apply IH; exact A). destruct sid; [injection A as -> ->; reflexivity|apply IH; exact A].
+Qed.
+
+(* A registration (set_exit_callback or wait_for_exit, label l) made after the object's exit was reported with a
+   decodable status: at the next loop turn its callback runs with the decoded status, its future (if any) is resolved
+   by the rule, and this remains so whatever happens later. *)
+Theorem late_registration_fires es1 e r2 r3 sid p r1 st rc l :
+  let es := es1 ++ e :: r2 ++ r3 in
+  wf es = true -> after_spawn sid es1 = Some (p, r1) ->
+  reported st (fold_left (cstep sid) r1 (cinit p)) -> decode st = Some rc ->
+  reg_label sid e = Some l -> In ELoop r2 ->
+  In (LCall sid l rc) (calls_of sid (w_log (run es))) /\
+  forall re, e = EWait sid l re ->
+    exists sb j, nth_error (w_subs (run es)) sid = Some sb /\ nth_error (s_futs sb) j = Some (l, resolve re rc).
+Proof.
+  intros es W A Rp Dc Lb Lp.
+  assert (A' : after_spawn sid es = Some (p, r1 ++ e :: r2 ++ r3)) by (apply after_spawn_app; exact A).
+  destruct (world_child es sid p _ W A') as [[[Hs _ _ Hc _] _] _].
+  set (c1 := fold_left (cstep sid) r1 (cinit p)) in *.
+  assert (I1 : Inv sid p r1 c1) by apply Inv_track.
+  assert (Rb : RB sid r1 rc (c_sub c1) (c_calls c1) (c_late c1)).
+  { pose proof (i_body _ _ _ _ I1) as B. unfold body in B. unfold reported in Rp. rewrite Rp, Dc in B. exact B. }
+  pose proof Rb as [Rc _].
+  (* the registration event queues callback(returncode) *)
+  assert (Hreg : exists cb, cb_label cb = l /\ pend cb rc (cstep sid c1 e) /\
+                 forall re, e = EWait sid l re -> cb = CbFut l (length (s_futs (c_sub c1))) re).
+  { destruct e as [q|q st0| |s0 l0|s0 l0 re0|]; simpl in Lb; try discriminate.
+    - destruct (Nat.eqb s0 sid) eqn:E; [|discriminate]. injection Lb as ->. exists (CbPlain l).
+      split; [reflexivity|]. split; [|intros re K; discriminate K].
+      cbn [cstep]. rewrite E. unfold creg, pend. rewrite Rc. cbn [c_late]. apply in_or_app. right. left. reflexivity.
+    - destruct (Nat.eqb s0 sid) eqn:E; [|discriminate]. injection Lb as ->. exists (CbFut l (length (s_futs (c_sub c1))) re0).
+      split; [reflexivity|]. split; [|intros re K; inversion K; subst; reflexivity].
+      cbn [cstep]. rewrite E. unfold creg, pend. rewrite Rc. cbn [c_late]. apply in_or_app. right. left. reflexivity. }
+  destruct Hreg as [cb [Hl [Hp Hw]]].
+  pose proof (Inv_step sid p r1 c1 e I1) as I2.
+  destruct (late_fold sid p cb rc (r2 ++ r3) (r1 ++ [e]) (cstep sid c1 e) I2 (or_introl Hp)) as [_ [_ Dn]].
+  specialize (Dn (in_or_app _ _ _ (or_introl Lp))).
+  replace (fold_left (cstep sid) (r1 ++ e :: r2 ++ r3) (cinit p))
+    with (fold_left (cstep sid) (r2 ++ r3) (cstep sid c1 e)) in Hs, Hc
+    by (unfold c1; rewrite (fold_left_app _ r1 (e :: r2 ++ r3)); reflexivity).
+  destruct Dn as [D1 D2]. rewrite Hl in D1. split; [rewrite Hc; exact D1|].
+  intros re K. rewrite (Hw re K) in D2. simpl in D2. eauto.
 Qed.
